@@ -338,12 +338,15 @@ Definition render (o : opts) (code : str) (W : Z) : res (list str) :=
 (* Traceback._render_stack: Syntax(code, lexer, theme=..., line_numbers=True,
    line_range=(lineno - extra, lineno + extra), highlight_lines={lineno}, word_wrap=self.word_wrap,
    code_width=88, dedent=False); the keyword values come from gen/SyntaxFacts.v *)
-Definition tb_opts (lineno extra : Z) (word_wrap transparent guides : bool) : opts :=
-  mkOpts true SyntaxFacts.tb_line_numbers SyntaxFacts.syntax_default_start_line
+Definition tb_opts_f (found : bool) (lineno extra : Z) (word_wrap transparent guides : bool) : opts :=
+  mkOpts found SyntaxFacts.tb_line_numbers SyntaxFacts.syntax_default_start_line
          (if SyntaxFacts.tb_range_is_lineno_pm_extra then Some (lineno - extra, lineno + extra) else None)
          (if SyntaxFacts.tb_highlight_is_lineno then [lineno] else [])
          word_wrap (Some SyntaxFacts.tb_code_width) SyntaxFacts.syntax_default_tab_size transparent guides.
-Definition render_frame (code : str) (lineno extra : Z) (word_wrap transparent guides : bool) (W : Z)
+Definition tb_opts := tb_opts_f true.
+(* found = did get_lexer_by_name(lexer_name) succeed for the name _guess_lexer produced *)
+Definition render_frame_f (found : bool) (code : str) (lineno extra : Z) (word_wrap transparent guides : bool) (W : Z)
   : res (list str) :=
-  render (tb_opts lineno extra word_wrap transparent guides) code W.
+  render (tb_opts_f found lineno extra word_wrap transparent guides) code W.
+Definition render_frame := render_frame_f true.
 End Render.
